@@ -19,7 +19,13 @@ Binding: histories on a lattice are replayed into real Inlet / Outlet objects
          three inlet/outlet pairs with the same array names and different
          geometries built one after the other in ONE process and driven
          interleaved, each judged with its own geometry (state kept per
-         process or per array name instead of per object).  Recorded traces with one corrupted field must
+         process or per array name instead of per object).  In 40% of the
+         histories the arrays also hold Remote/Ghost rows behind the Local
+         ones (periodic boundaries, parallel runs): after every update each
+         array must be aligned (exactly the Local rows form the real range
+         1..num_real_particles), the clauses are judged on the real ranges,
+         and non-local rows must not be duplicated, promoted or altered.
+         Recorded traces with one corrupted field must
          be rejected (binding self-test, every run).
 """
 import copy
@@ -44,11 +50,14 @@ DIAG = {2: [[1, 1, 0], [1, -1, 0], [-1, -1, 0], [3, 4, 0], [-4, 3, 0]],
         3: [[1, 1, 0], [1, 1, 1], [1, -1, 1], [2, 3, 6], [-1, 2, 2],
             [0, 3, -4]]}
 KNOWN_ID = 'C16-diagonal-length'
-DESIGN_QUICK = ('ind', 'deep', 'histq', 'wideq')
-DESIGN_THOROUGH = ('ind', 'deep', 'histq', 'wide', 'hist', 'ind4')
+DESIGN_QUICK = ('ind', 'ghost', 'deep', 'histq', 'wideq')
+DESIGN_THOROUGH = ('ind', 'ghost', 'deep', 'histq', 'wide', 'hist', 'ind4')
+# wrong mechanisms the property layer must reject (False) / a correct variant
+# it must accept (True); no_align only shows when non-local rows are present
 MUTANTS = {'ties_other_way': True, 'recycle_short': False, 'no_remove': False,
            'keep_far': False, 'ignore_stage': False, 'copy_all_inlet': False,
-           'drop_prop': False}
+           'drop_prop': False, 'no_align': False}
+MUTANT_BASE = {'no_align': 'ghost'}
 
 
 def scenario(rng, k, thorough, tag='s', dim=None, mode=None, steps=None):
@@ -122,7 +131,21 @@ def scenario(rng, k, thorough, tag='s', dim=None, mode=None, steps=None):
             elif r < 0.25:
                 pair = [pair[0], pair[0], pair[1], pair[1]]
             ops += pair
+    ghosts = {}
+    if rng.random() < 0.4:
+        # non-local rows (1 Remote, 2 Ghost) behind the Local rows of the
+        # destination and source arrays, some of them past a plane
+        spans = dict(inlet=(-Lin - 1, 1), fluid=(-1, X + 2),
+                     outlet=(X, X + Lout + 2))
+        for name in ('inlet', 'fluid', 'outlet'):
+            if rng.random() < (0.8 if name == 'fluid' else 0.5):
+                lo, hi = spans[name]
+                ghosts[name] = [
+                    [rng.randint(lo, hi)] + list(rng.choice(tsites)) +
+                    [rng.choice([1, 2, 2])]
+                    for _ in range(rng.randint(1, 3))]
     return dict(id='%s%d' % (tag, k), mode=mode, family=fam, dim=dim,
+                ghosts=ghosts,
                 flow=flow, unit_exp=unit_exp, origin=org, dx=dx, Lin=Lin,
                 X=X, Lout=Lout, ptc=rng.choice(['none', 'all', 'nob']),
                 active=active, ghost=ghost,
@@ -222,6 +245,24 @@ def seeded_fault_selftest(chk, sc):
     return out
 
 
+AIDX = {'inlet': 0, 'fluid': 1, 'outlet': 2}
+
+
+def _real(st, name):
+    return st[name][:st['nreal'][AIDX[name]]]
+
+
+def _add_local(st, name, row):
+    n = st['nreal'][AIDX[name]]
+    st[name].insert(n, row)
+    st['nreal'][AIDX[name]] = n + 1
+
+
+def _drop_local(st, name, row):
+    st[name].remove(row)
+    st['nreal'][AIDX[name]] -= 1
+
+
 def mutate(rec, rng):
     """Corrupt one recorded field of a trace; returns (name, record) or None."""
     rec = copy.deepcopy(rec)
@@ -231,24 +272,33 @@ def mutate(rec, rng):
     for k, c in enumerate(calls):
         if c['stage'] not in active or not c['ok']:
             continue
-        if c['kind'] == 'in' and len(c['after']['fluid']) > len(c['before']['fluid']):
-            opts.append(('recycled-position', k))
-            opts.append(('copy-twice', k))
-            opts.append(('copy-property', k))
-        if c['kind'] == 'out' and len(c['after']['fluid']) < len(c['before']['fluid']):
+        b, a = c['before'], c['after']
+        entered = a['nreal'][1] > b['nreal'][1]
+        if c['kind'] == 'in' and entered:
+            opts += [('recycled-position', k), ('copy-twice', k),
+                     ('copy-property', k)]
+            if a['nreal'][1] < len(a['fluid']):
+                opts += [('entered-behind-ghost', k)] * 3
+                opts += [('entered-tagged-ghost', k)] * 2
+        if c['kind'] == 'out' and a['nreal'][1] < b['nreal'][1]:
             opts.append(('left-but-still-fluid', k))
-        if c['kind'] == 'out' and c['after']['outlet']:
+        if c['kind'] == 'out' and a['nreal'][2]:
             opts.append(('outlet-row-lost', k))
-        if c['kind'] == 'in' and c['after']['inlet']:
+        if c['kind'] == 'in' and a['nreal'][0]:
             opts.append(('untouched-inlet-moved', k))
+        for name in ('fluid', 'outlet'):
+            if a['nreal'][AIDX[name]] < len(a[name]):
+                opts += [('ghost-promoted:' + name, k),
+                         ('ghost-duplicated:' + name, k)]
     if not opts:
         return None
     what, k = rng.choice(opts)
     c = calls[k]
     b, a = c['before'], c['after']
-    bi = {r['id']: r for r in b['inlet']}
+    bi = {r['id']: r for r in _real(b, 'inlet')}
+    bf = set(r['id'] for r in _real(b, 'fluid'))
+    new = [r for r in _real(a, 'fluid') if r['id'] not in bf]
     if what == 'recycled-position':
-        new = [r for r in a['fluid'][len(b['fluid']):]]
         ids = [r['id'] for r in new if r['id'] in bi]
         if not ids:
             return None
@@ -256,25 +306,42 @@ def mutate(rec, rng):
             if r['id'] == ids[0]:
                 r['s'] += rec['fine']
     elif what == 'copy-twice':
-        a['fluid'].append(dict(a['fluid'][-1]))
+        _add_local(a, 'fluid', dict(new[-1]))
     elif what == 'copy-property':
-        a['fluid'][-1]['b'] += 1
+        new[-1]['b'] += 1
+    elif what == 'entered-behind-ghost':
+        # what extract_particles(align=False) + a bumped count would leave
+        a['fluid'].remove(new[-1])
+        a['fluid'].append(new[-1])
+    elif what == 'entered-tagged-ghost':
+        a['fluid'].remove(new[-1])
+        a['fluid'].append(new[-1])
+        a['nreal'][1] -= 1
+        new[-1]['tag'] = 2
     elif what == 'left-but-still-fluid':
-        gone = [r for r in b['fluid']
+        gone = [r for r in _real(b, 'fluid')
                 if r['id'] not in set(x['id'] for x in a['fluid'])]
-        a['fluid'].append(dict(gone[0]))
+        _add_local(a, 'fluid', dict(gone[0]))
     elif what == 'outlet-row-lost':
         far = rec['g']['X'] + rec['g']['Lout']
-        keep = [r for r in a['outlet'] if r['s'] < far - 1]
+        keep = [r for r in _real(a, 'outlet') if r['s'] < far - 1]
         if not keep:
             return None
-        a['outlet'].remove(keep[0])
+        _drop_local(a, 'outlet', keep[0])
     elif what == 'untouched-inlet-moved':
-        still = [r for r in a['inlet'] if r['id'] in bi and
+        still = [r for r in _real(a, 'inlet') if r['id'] in bi and
                  r['s'] == bi[r['id']]['s']]
         if not still:
             return None
         still[0]['s'] -= rec['fine']
+    elif what.startswith('ghost-promoted:'):
+        name = what.split(':')[1]
+        a[name][a['nreal'][AIDX[name]]]['tag'] = 0
+        a['nreal'][AIDX[name]] += 1
+    elif what.startswith('ghost-duplicated:'):
+        name = what.split(':')[1]
+        a[name].append(dict(a[name][-1]))
+    what = what.split(':')[0]
     # later calls are left as recorded: the history is judged as a whole
     rec['id'] = '%s~%s@%d' % (rec['id'], what, k + 1)
     rec['calls'] = calls[:k + 1]
@@ -324,8 +391,9 @@ def body(chk):
             return n, r
 
         def mut(m):
-            base = open(os.path.join(tlc.SPEC_DIR, 'cfg',
-                                     'InletOutlet.ind.cfg')).read()
+            base = open(os.path.join(
+                tlc.SPEC_DIR, 'cfg', 'InletOutlet.%s.cfg' %
+                MUTANT_BASE.get(m, 'ind'))).read()
             p = os.path.join(sc, 'mutant-%s.cfg' % m)
             with open(p, 'w') as fp:
                 fp.write(base.replace('Mutant = "none"', 'Mutant = "%s"' % m))
@@ -338,7 +406,7 @@ def body(chk):
                 for n in (DESIGN_QUICK if quick else DESIGN_THOROUGH)]
         if not quick or chk.args.selftest:
             mfut = [pool.submit(mut, m) for m in sorted(MUTANTS)]
-        n, nq = (640, 90) if quick else (5500, 600)
+        n, nq = (560, 80) if quick else (5500, 600)
         scens = [scenario(rng, k, not quick) for k in range(n)]
         scens += [seq_scenario(rng, k, not quick) for k in range(nq)]
         rng.shuffle(scens)
@@ -458,9 +526,9 @@ def body(chk):
             raise MachineryError('harness link broken in %s' % v['id'])
         if v['entered'] >= 2 and v['left'] >= 1 and v['deleted'] >= 1:
             nontrivial.add(json.dumps(
-                [s[k] for k in ('mode', 'family', 'dim', 'flow', 'dx', 'Lin',
+                [s.get(k) for k in ('mode', 'family', 'dim', 'flow', 'dx', 'Lin',
                                 'X', 'Lout', 'inlet', 'fluid', 'outlet',
-                                'ops')], sort_keys=True))
+                                'ghosts', 'ops')], sort_keys=True))
         failed = [f for f in v['failed'] if f[1] != 'HarnessNotUnique']
         if v['failed'] and not failed:
             raise MachineryError('identities not unique before a call in %s'
@@ -526,6 +594,8 @@ def body(chk):
         design_runs=dinfo, design_mutants=minfo, phases=phases,
         seeded_faults_in_real_update=seeded,
         traces_validated_against_impl=len(verdicts) - len(mutants),
+        histories_with_nonlocal_rows=sum(
+            1 for t, _ in flatten(scens) if t.get('ghosts')),
         same_name_sequences=sum(1 for x in scens if 'seq' in x),
         histories_in_sequences=sum(len(x['seq']) for x in scens
                                    if 'seq' in x),
@@ -558,6 +628,10 @@ def body(chk):
         'carried past the far end of the outlet zone in one step may be '
         'absorbed or deleted at once; fluid particles more than 1000 length '
         'units past the outlet plane are not generated',
+        'non-local rows (tag 1, 2) are not particles of the statement: one '
+        'lying past a plane may stay (what the code does), be dropped or be '
+        'passed on as non-local; they must never enter a real range, be '
+        'duplicated or change',
         'ghost arrays (ghost_inlet/ghost_outlet) are created and passed to '
         'the objects but are not part of the statement and are not judged',
     ]
